@@ -43,6 +43,9 @@ class TokenRoot(KDDataset):
 
     def _norm(self, j):
         j = int(j)
+        if j < 0 and self.__dict__.get("strict_neg"):
+            # a dataset that computes its samples from the index (offset + idx, a file name) has no notion of negative indices
+            raise IndexError(f"negative index {j} handed to a dataset without negative indexing")
         if j < 0:
             j += self.n
         if not 0 <= j < self.n:
